@@ -34,6 +34,11 @@ const DELAY: Duration = Duration::from_millis(15); // retry delay
 const T_BCAST: Duration = Duration::from_millis(3000);
 const WATCHDOG: Duration = Duration::from_secs(10);
 const HEALTHY_CALLS: usize = 3;
+const DEFAULT_TIMEOUT: Duration = Duration::from_secs(20); // FleetOptions.default_timeout, unused by a correct fleet
+/// Cases whose oracle failure was confirmed. After this many the remaining cases are not run: the
+/// verdict is settled, and a defect that makes every case slow must not make the run endless.
+static CONFIRMED: AtomicU64 = AtomicU64::new(0);
+const ENOUGH_CONFIRMED: u64 = 40;
 const IDLE_WATCHDOG: Duration = Duration::from_secs(2);
 /// Watchdog expiries so far. When the implementation's socket behaviour systematically differs from
 /// what the scripts engineer (e.g. a client that no longer closes its socket after EOF), every case
@@ -476,6 +481,8 @@ struct NodeSt {
 struct NodeShared {
     port: u16,
     id: u64,
+    /// error code of the `apperr` replies of this node (4096 application, 7 Timeout, 8 ResourceExhausted, 6 MethodNotFound)
+    app_code: AtomicU64,
     _placeholder: OwnedFd,
     st: Mutex<NodeSt>,
     cv: Condvar,
@@ -629,7 +636,8 @@ fn handle_conn(sh: Arc<NodeShared>, mut s: TcpStream, id: u64) {
                 let _ = s.write_all(&reply_frame(&req, 0, 2, b"{\"ok\":true}"));
             }
             Beh::AppErr => {
-                let _ = s.write_all(&reply_frame(&req, 4096, 3, b"scripted application error"));
+                let code = sh.app_code.load(Ordering::SeqCst) as u32;
+                let _ = s.write_all(&reply_frame(&req, code, 3, b"scripted application error"));
             }
             Beh::Malformed => {
                 let _ = s.write_all(&[0xEEu8; 48]);
@@ -732,6 +740,7 @@ impl Node {
         let sh = Arc::new(NodeShared {
             port,
             id,
+            app_code: AtomicU64::new(4096),
             _placeholder: ph,
             st: Mutex::new(NodeSt {
                 script,
@@ -768,6 +777,12 @@ impl Node {
     }
     fn method(&self) -> String {
         String::from_utf8_lossy(&self.sh.st.lock().unwrap().token).into_owned()
+    }
+    /// Which error code the node's application errors carry: derived from the case's index token, so a
+    /// replay uses the same one. Whatever the code, an error *reply* ends the call.
+    fn set_app_code_for(&self, idx: &str) {
+        let codes = [4096u64, 7, 8, 6];
+        self.sh.app_code.store(codes[(fnv(idx.as_bytes()) % 4) as usize], Ordering::SeqCst);
     }
     fn set_token(&self, t: &str) {
         self.sh.st.lock().unwrap().token = t.as_bytes().to_vec();
@@ -869,7 +884,8 @@ struct Env {
 
 impl AnyFleet {
     fn new(kind: &str, configs: Vec<NodeConfig>, max: usize, delay: Duration) -> AnyFleet {
-        let opts = FleetOptions { default_timeout: T_NODE, retry_policy: RetryPolicy { max_attempts: max, delay } };
+        // the fleet-wide default differs from every node's own timeout: it must never be what a call waits for
+        let opts = FleetOptions { default_timeout: DEFAULT_TIMEOUT, retry_policy: RetryPolicy { max_attempts: max, delay } };
         match kind {
             "b" => AnyFleet::B(Fleet::with_options(configs, opts).expect("fleet options")),
             _ => AnyFleet::A(AsyncFleet::with_options(configs, opts).expect("fleet options")),
@@ -986,6 +1002,7 @@ enum Verdict {
 
 /// The property's clauses evaluated on one call, from what the node saw and what the fleet returned.
 fn check_call(kind: &str, max: usize, c: &CallRec, what: &str, sniffer_dependent: bool) -> Verdict {
+    let health = what.contains("(health)");
     let k = kind_name(kind);
     let n = c.contacts.len();
     let show: Vec<String> = c
@@ -1028,6 +1045,10 @@ fn check_call(kind: &str, max: usize, c: &CallRec, what: &str, sniffer_dependent
     // (1) bounded
     if n > max {
         return Verdict::Fail(format!("fleet.{k}.attempts.exceeds_max"), ctx);
+    }
+    // each attempt waits for the node's own timeout (80 ms), not for the fleet-wide default (20 s)
+    if !health && c.t1.saturating_duration_since(c.t0) > (T_NODE + DELAY) * max as u32 + Duration::from_secs(5) {
+        return Verdict::Fail(format!("fleet.{k}.timeout.not_the_nodes"), ctx);
     }
     // the node read a request only after the fleet call had returned: the client did not wait for the
     // node (it timed out on a starved node thread); what the node then did is not what the call saw
@@ -1142,6 +1163,7 @@ fn run_case(env: &Env, idx: &str, kind: &str, variant: &str, max: usize, seq: &[
             return out;
         }
     };
+    node.set_app_code_for(idx);
     let cfg = NodeConfig::new(node_host(), node.port()).unwrap().with_name("n").unwrap().with_timeout(T_NODE).unwrap();
     let fleet = AnyFleet::new(kind, vec![cfg], max, DELAY);
     let mut script_calls = vec![];
@@ -1283,6 +1305,7 @@ fn run_life(env: &Env, idx: &str, kind: &str, max: usize, seq: &[Beh], ops: &[St
             return out;
         }
     };
+    node.set_app_code_for(idx);
     let cfg = NodeConfig::new(node_host(), node.port()).unwrap().with_name("n").unwrap().with_timeout(T_NODE).unwrap();
     let fleet = AnyFleet::new(kind, vec![cfg], max, DELAY);
     let sd = seq.contains(&Beh::Refused);
@@ -1331,12 +1354,20 @@ fn run_life(env: &Env, idx: &str, kind: &str, max: usize, seq: &[Beh], ops: &[St
                 }
                 "conn" | "reconn" => {
                     let was = fleet.is_connected(env, "n");
+                    let n0 = node.log_len();
                     let r = if op == "conn" { fleet.connect_all(env) } else { fleet.reconnect(env) };
                     node.settle()?;
                     if let Some(t) = node.trouble() {
                         return Err(t);
                     }
                     let conn = fleet.is_connected(env, "n");
+                    // the fleet says the connect failed: the node's log must show the counted refusal
+                    // (and only a refusal can be in the log of a bare connect)
+                    let seen: Vec<Contact> = node.log_from(n0);
+                    let refusals = seen.iter().filter(|x| x.beh == Beh::Refused && x.via == Via::Connect).count();
+                    if (r == Some(false)) != (refusals == 1) || seen.len() != refusals {
+                        return Err("refusal_unseen".into());
+                    }
                     // the summary and the slot must agree; an occupied slot is not an attempt for reconnect
                     let consistent = match (op.as_str(), r) {
                         ("conn", Some(b)) => b == conn,
@@ -1793,6 +1824,10 @@ fn main() {
                     Err(msg) => CaseOut { skip: Some(format!("harness_panic:{msg}")), ..Default::default() },
                 }
             };
+            if CONFIRMED.load(Ordering::SeqCst) >= ENOUGH_CONFIRMED {
+                results.lock().unwrap()[i] = Some(CaseOut { skip: Some("not_run_after_failures".into()), ..Default::default() });
+                continue;
+            }
             let mut r = run(&ops[i]);
             for _ in 0..2 {
                 if let Some(reason) = &r.skip {
@@ -1817,6 +1852,9 @@ fn main() {
                         r = CaseOut { skip: Some("unconfirmed_failure".into()), ..Default::default() };
                         break;
                     }
+                }
+                if r.skip.is_none() {
+                    CONFIRMED.fetch_add(1, Ordering::SeqCst);
                 }
             }
             results.lock().unwrap()[i] = Some(r);
